@@ -239,4 +239,4 @@ pub fn cells(tier: Tier) -> Vec<CellPlan> {
     v
 }
 
-pub const RULE: &str = "histories of world operations and event emissions with a client disconnect or server stop injected at every round (with update, mutate, acknowledgement and event messages held in flight or buffered by earlier deviations), >= 1 frame down, then reconnect / restart, x schedules with <= d deviations; the restart cell also under both resolutions of every pair of send-side library systems whose order the declared constraints leave open; no panic, per-frame confirmed-tick oracle and session-aware recipient oracle in the new session, no traffic for closed connections, convergence after closure; non-trivial = at least one event emitted or observed";
+pub const RULE: &str = "histories of world operations and event emissions with a client disconnect or server stop injected at every round (with update, mutate, acknowledgement and event messages held in flight or buffered by earlier deviations), >= 1 frame down, then reconnect / restart, x schedules with <= d deviations; the restart cell also under both resolutions of every pair of send-side library systems whose order the declared constraints leave open; plus reconnects over loopback TCP with messages waiting in the client's link conditioner; no panic, per-frame confirmed-tick oracle and session-aware recipient oracle in the new session, no traffic for closed connections, convergence after closure; non-trivial = at least one event emitted or observed";
